@@ -15,11 +15,13 @@ DIMS = [
  ("decos", ["none", "extra-decorator", "multi-line-fixture-decorator", "multi-line-mark-on-the-test"]),
  ("body", ["one-line", "multi-line-with-blank", "nested-def-inside", "docstring-first"]),
  ("usefixtures", ["none", "single-line", "multi-line", "on-class", "pytestmark"]),
- ("parametrize", ["none", "indirect", "without-indirect(unjudged)"]),
+ ("parametrize", ["none", "indirect", "without-indirect", "indirect=False", "indirect-list", "indirect-multi-line"]),
  ("tail", ["none", "def test_x(", "def test_x(a,", "def test_x(a, <newline>", "def test_x():", "def test_x()", "fixture def fix(", "session fixture def fix(a, ",
-           "async def test_x(", "usefixtures( unclosed", 'usefixtures("a", ', "pytestmark = [usefixtures(", "def helper(", "def test_x (unjudged)"]),
+           "async def test_x(", "usefixtures( unclosed", 'usefixtures("a", ', "pytestmark = [usefixtures(", "def helper(", "def test_x (unjudged)",
+           "pytest_asyncio fixture async def fix(", "multi-line session fixture decorator, def fix(", "scope = \"session\" with spaces, def fix("]),
  ("location", ["root", "subdirectory"]),
  ("edited_name_collides", ["no", "edited fixture has the name of a conftest fixture", "edited fixture is named like a test (test_edited)"]),
+ ("alias", ["no", 'edited fixture declared with name= on a function of another name']),
  ("trailer", ["none", "multi-line module-level call after the test", "multi-line module-level list after the test", "multi-line call between the functions"]),
 ]
 
@@ -59,11 +61,16 @@ def build(a):
     params = self_ + declared
     ctx_f = dict(func=fname, is_fixture=True, scope=scope, declared=self_ + taken)
     if a["decos"] == 1: d.add(I + "@other_deco")
+    alias = a["alias"] == 1
+    def_name = fname + "_impl" if alias else fname
     if a["decos"] == 2:
         # continuation lines of a decorator call are no place to request a fixture
-        d.add(I + "@pytest.fixture("); d.add(I + unit + 'scope="%s",' % scope, "none", col=len(I + unit)); d.add(I + ")", "none", col=len(I))
+        d.add(I + "@pytest.fixture("); d.add(I + unit + 'scope="%s",' % scope, "none", col=len(I + unit))
+        if alias: d.add(I + unit + 'name="%s",' % fname, "none", col=len(I + unit))
+        d.add(I + ")", "none", col=len(I))
     else:
-        d.add(I + ("@pytest.fixture" if scope == "function" else '@pytest.fixture(scope="%s")' % scope))
+        args = (['scope="%s"' % scope] if scope != "function" else []) + (['name="%s"' % fname] if alias else [])
+        d.add(I + ("@pytest.fixture(%s)" % ", ".join(args) if args else "@pytest.fixture"))
     def signature(name, params, ctx):
         if a["sig"] == 0 or not params:
             d.add(I + "%s %s(%s):" % (kw, name, ", ".join(params)), "signature", col=len(I + "%s %s(" % (kw, name)), **ctx)
@@ -84,7 +91,7 @@ def build(a):
         if a["body"] == 2:
             d.add(B + "def inner(q):", "unjudged"); d.add(B + unit + "return q", "unjudged"); d.add(B + "z = inner(1)", "body", **ctx)
         d.add(B + "return x", "body", **ctx)
-    signature(fname, params, ctx_f); body(ctx_f); d.add("", "unjudged")
+    signature(def_name, params, ctx_f); body(ctx_f); d.add("", "unjudged")
     if a["trailer"] == 3:
         d.add("BETWEEN = dict("); d.add("    key=1,", "none", col=4); d.add(")", "none", col=0); d.add("", "unjudged")
     # ---- a test with marks
@@ -97,8 +104,13 @@ def build(a):
     if uf == 2:
         d.add(I + "@pytest.mark.usefixtures(", "usefixtures"); d.add(I + unit + '"l_one",', "usefixtures", col=len(I + unit)); d.add(I + ")", "usefixtures", col=len(I))
     if a["parametrize"] == 1: d.add(I + '@pytest.mark.parametrize("c_function", [1], indirect=True)', "parametrize", col=len(I + "@pytest.mark.parametrize("))
-    if a["parametrize"] == 2: d.add(I + '@pytest.mark.parametrize("val", [1])', "unjudged")
-    tp = tparams + (["c_function"] if a["parametrize"] == 1 and "c_function" not in tparams else []) + (["val"] if a["parametrize"] == 2 else [])
+    if a["parametrize"] == 2: d.add(I + '@pytest.mark.parametrize("val", [1])', "none", col=len(I + "@pytest.mark.parametrize("))
+    if a["parametrize"] == 3: d.add(I + '@pytest.mark.parametrize("val", [1], indirect=False)', "none", col=len(I + "@pytest.mark.parametrize("))
+    if a["parametrize"] == 4: d.add(I + '@pytest.mark.parametrize("c_function", [1], indirect=["c_function"])', "parametrize", col=len(I + "@pytest.mark.parametrize("))
+    if a["parametrize"] == 5:
+        d.add(I + "@pytest.mark.parametrize(", "parametrize"); d.add(I + unit + '"c_function",', "parametrize", col=len(I + unit)); d.add(I + unit + "[1],", "parametrize", col=len(I + unit))
+        d.add(I + unit + "indirect=True,", "parametrize", col=len(I + unit)); d.add(I + ")", "parametrize", col=len(I))
+    tp = tparams + (["c_function"] if a["parametrize"] in (1, 4, 5) and "c_function" not in tparams else []) + (["val"] if a["parametrize"] in (2, 3) else [])
     ctx_t["declared"] = [p.split("=")[0] for p in tp if p != "*"]
     signature("test_it", tp, ctx_t); body(ctx_t); d.add("", "unjudged")
     if a["trailer"] == 1:
@@ -131,6 +143,10 @@ def build(a):
     elif t == 11: d.add("pytestmark = [pytest.mark.usefixtures(", "usefixtures")
     elif t == 12: d.add("def helper2(", "none", col=len("def helper2("))
     elif t == 13: d.add("def test_x", "unjudged")
+    elif t == 14: d.add("@pytest_asyncio.fixture"); d.add("async def fix(", "signature", **sig("fix", [], True, "function"))
+    elif t == 15:
+        d.add("@pytest.fixture("); d.add('    scope="session",', "none", col=4); d.add(")", "none", col=0); d.add("def fix(", "signature", **sig("fix", [], True, "session"))
+    elif t == 16: d.add('@pytest.fixture(scope = "session")'); d.add("def fix(", "signature", **sig("fix", [], True, "session"))
     if t and t not in (3,):
         pass
     return d
@@ -156,7 +172,7 @@ if __name__ == "__main__":
         # keep only the tail lines and module-level 'none' lines judged
         exp = d.exp
         if a["tail"]:
-            ntail = {1:1,2:1,3:2,4:1,5:1,6:2,7:2,8:1,9:1,10:1,11:1,12:1,13:1}[a["tail"]]
+            ntail = {1:1,2:1,3:2,4:1,5:1,6:2,7:2,8:1,9:1,10:1,11:1,12:1,13:1,14:2,15:4,16:2}[a["tail"]]
             for e in exp[:-ntail]:
                 if e["cls"] != "none": e["cls"] = "unjudged"
         emit({"id": i, "dims": dims, "source": src, "expected": {"valid": valid, "location": a["location"], "lines": exp,
